@@ -1105,7 +1105,7 @@ static int probe_in_child(const U16& pat, const std::vector<std::string>& optlis
     pid_t p = fork();
     if (p == 0) {
         close(fds[0]); dup2(fds[1], 2); close(fds[1]);
-        alarm(15);
+        alarm(110);
         for (auto& opts : optlist) {
             Compiled C;
             compile(C, pat, opts.c_str());
@@ -1140,20 +1140,19 @@ static void run_malformed(uint64_t idx, Ctx& c) {
                 if (kdname) { c.count(std::string("known_defect:") + kdname); c.violation(std::string("known-defect:") + kdname, "\"observed_as\":" + jstr(kind) + "," + detail); }
                 else c.violation(kind, detail);
             };
-            if (e.cls == 'N') {
-                // probe in a forked child first: a sanitizer abort / signal must be attributed to this entry without killing the worker
-                // (one child for both dialects; only if that one dies, one child per dialect)
+            if (e.cls == 'N' && mode == 0) {
+                // probe in ONE forked child first (both dialects): a sanitizer abort / signal must be attributed to this entry without
+                // killing the worker.  A sanitizer report is slow (symbolisation), so a dying entry is not probed again per dialect.
                 std::string log;
-                int st = 0;
-                if (mode == 0) both_status = probe_in_child(pat, {"X", ""}, log);
-                if (both_status != 0) { log.clear(); st = probe_in_child(pat, {opts}, log); }
-                if (st != 0) {
-                    c.count("catalogue:N:" + mname + ":abnormal-termination");
-                    viol("compile-crash-" + mname, desc + ",\"how\":" + jstr(WIFSIGNALED(st) ? "signal " + std::to_string(WTERMSIG(st)) : "exit " + std::to_string(WEXITSTATUS(st))) +
-                                                              ",\"log\":" + jstr(log.substr(0, 700)));
-                    continue;
+                both_status = probe_in_child(pat, {"X", ""}, log);
+                if (both_status != 0) {
+                    c.count("catalogue:N:abnormal-termination");
+                    viol("compile-crash", desc + ",\"dialects\":\"X and XPath probed in one child\",\"how\":" +
+                                              jstr(WIFSIGNALED(both_status) ? "signal " + std::to_string(WTERMSIG(both_status)) : "exit " + std::to_string(WEXITSTATUS(both_status))) +
+                                              ",\"log\":" + jstr(log.substr(0, 700)));
                 }
             }
+            if (e.cls == 'N' && both_status != 0) continue;
             Compiled C;
             compile(C, pat, opts.c_str());
             c.count(std::string("catalogue:") + e.cls + ":" + mname + ":" + EXNAME[C.exc]);
@@ -1206,7 +1205,7 @@ static void run_known(uint64_t idx, Ctx& c) {
         struct sigaction sa; memset(&sa, 0, sizeof sa); sa.sa_handler = on_child_segv; sa.sa_flags = SA_ONSTACK; sigaction(SIGSEGV, &sa, nullptr); sigaction(SIGBUS, &sa, nullptr);
         struct rlimit rl; rl.rlim_cur = rl.rlim_max = 1 << 20; setrlimit(RLIMIT_STACK, &rl);
         struct itimerval it; memset(&it, 0, sizeof it); setitimer(ITIMER_REAL, &it, nullptr);
-        signal(SIGALRM, SIG_DFL); alarm(30);
+        signal(SIGALRM, SIG_DFL); alarm(110);
         int out[4] = {0, -1, -1, -1};
         Compiled C;
         compile(C, cat16(k.pattern), k.options);
